@@ -134,6 +134,7 @@ def job_layout(cfg):
                       "_Simu.__Solver_Get_Dirichlet_A_x", "Solvers.Solve_simu", "Solvers.__Solver_1", "Solvers.__Solver_2", "BoundaryCondition.Get_dofs_nodes", "BoundaryCondition.Get_values",
                       "_Simu.Bc_vector_Neumann"}
     mark = c.mark()
+    main_singular = None
     with facade.symbolic(), stubs.ideal_linear_solver():
         expected = apply_layout(simu, layout)
         if cfg.get("newton"):
@@ -150,10 +151,19 @@ def job_layout(cfg):
             delta2, _ = Solvers.Solve_simu(simu, pt)
             u_again = np.asarray(u, dtype=object) + delta2
         else:
-            u, _ = Solvers.Solve_simu(simu, pt)
-        Fvec = simu.Bc_vector_Neumann(pt)
-        K = simu.Get_K_C_M_F()[0]
-        Fasm = simu.Get_K_C_M_F()[3]
+            try:
+                u, _ = Solvers.Solve_simu(simu, pt)
+            except linsolve.Singular as e:
+                main_singular = str(e)
+        if main_singular is None:
+            Fvec = simu.Bc_vector_Neumann(pt)
+            K = simu.Get_K_C_M_F()[0]
+            Fasm = simu.Get_K_C_M_F()[3]
+    if main_singular is not None:
+        res.record(f"{key} system handed to the solver is regular", Outcome("cex", env={}, how="structure", detail=main_singular), lambda env: _replay_layout(cfg, layout, env, c), key=f"{key} singular system")
+        res.stubs |= facade.USED_STUBS
+        res.twin(f"{key} twin", True)
+        return res
     pcs = c.pc_since(mark)
     res.paths, res.path_conditions = 1, len(pcs)
     res.symbols = len(c.input_vids())
@@ -210,6 +220,7 @@ def job_layout(cfg):
         unk = simu.Get_unknowns(pt)[0]
         gL = c.var("gL", -1, 1)
         sols = []
+        singular = []
         for how in ("r1", "r2"):
             mesh_b, simu_b = build(cfg)
             simu_b.Get_K_C_M_F()
@@ -221,9 +232,19 @@ def job_layout(cfg):
                     simu_b.add_dirichlet(np.array([extra_node]), [gL], [unk])
                 else:
                     simu_b._Bc_Add_Lagrange(LagrangeCondition(pt, np.array([extra_node]), dofs, [unk], np.asarray([gL], dtype=object), np.asarray([1.0]), "single-dof Lagrange"))
-                ub, _ = Solvers.Solve_simu(simu_b, pt)
+                try:
+                    ub, _ = Solvers.Solve_simu(simu_b, pt)
+                except linsolve.Singular as e:
+                    # the matrix handed to the backend is singular although the problem is well posed (e.g. an orphan node left without its pivot)
+                    singular.append((how, str(e)))
+                    ub = None
             sols.append(ub)
+        for how, msg in singular:  # recorded outside the stub's scope: the replay runs the real backend
+            res.record(f"{key} system handed to the solver is regular ({'elimination' if how == 'r1' else 'Lagrange multipliers'})", Outcome("cex", env={}, how="structure", detail=msg),
+                       lambda env: _replay_r1_r2(cfg, layout, env, c), key=f"{key} singular system ({how})")
         for d in range(n):
+            if sols[0] is None or sols[1] is None:
+                break
             res.record(f"{key} elimination = Lagrange at dof {d}", prove_abs_le(as_sym(sols[0][d]) - as_sym(sols[1][d]), TOL, c.pc_since(mark), key),
                        lambda env: _replay_r1_r2(cfg, layout, env, c), key=f"{key} elimination = Lagrange")
     # twin
@@ -266,7 +287,8 @@ def _replay_r1_r2(cfg, layout, env, c):
         u, _ = Solvers.Solve_simu(s2, pt)
         sols.append(np.asarray(u, dtype=float))
     d = float(np.abs(sols[0] - sols[1]).max())
-    return d > 1e-8 or bool(np.isnan(sols[1]).any()), {"max_difference_elimination_vs_lagrange": d}
+    bad_values = bool((~np.isfinite(sols[0])).any() or (~np.isfinite(sols[1])).any())
+    return d > 1e-8 or bad_values or d != d, {"max_difference_elimination_vs_lagrange": d, "solution_not_finite": bad_values}
 
 
 def BoundaryConditionDofs(simu):
